@@ -93,16 +93,28 @@ class OsShim:
 SEAM_USED = collections.Counter()
 
 
+def rng_draws(a: int):
+    """The scripted os.urandom(16) sequence of a client session: the first draw is the case's ephemeral a; later draws (a client
+    that re-rolls its ephemeral gets different bytes each time, as from a real RNG) are derived from it deterministically."""
+    out, x = [a], a
+    for _ in range(3):
+        x = (x * 0x5DEECE66D + 0x9E3779B97F4A7C15F39CC0605CEDC835) % (1 << 128)
+        out.append(x)
+    return out
+
+
 def impl_client(code: str, a: int, salt: bytes, B_b: bytes):
     import aiohomekit.crypto.srp as srp
     c = None
     if 0 <= a < 1 << 128 and getattr(srp, "os", None) is not None:
-        shim = OsShim([a.to_bytes(16, "big")])
+        shim = OsShim([x.to_bytes(16, "big") for x in rng_draws(a)])
         try:
             with SEAM_LOCK, mock.patch.object(srp, "os", shim):
                 c = srp.SrpClient(USER, code)
-            if shim.calls != [16]:
+            if not shim.calls:
                 c = None
+            elif len(shim.calls) > 1:
+                SEAM_USED["client:extra-urandom-draws"] += 1
         except RuntimeError:
             c = None
     if c is None:        # the ephemeral is not drawn through os.urandom(16) (any more): fix it one level up
@@ -208,7 +220,7 @@ def impl_pair_setup(code, a, salt, B_b, M2, ref_K=None, variant="plain"):
     from aiohomekit.exceptions import AuthenticationError
     from aiohomekit.protocol import perform_pair_setup_part2
     from aiohomekit.protocol.tlv import TLV
-    shim = OsShim([a.to_bytes(16, "big")] if 0 <= a < 1 << 128 else [])
+    shim = OsShim([x.to_bytes(16, "big") for x in rng_draws(a)] if 0 <= a < 1 << 128 else [])
     use_os = bool(shim.queue) and getattr(srp, "os", None) is not None and SEAM_USED["client:generate_private_key"] == 0
     with SEAM_LOCK, (mock.patch.object(srp, "os", shim) if use_os else
                      mock.patch.object(srp.SrpClient, "generate_private_key", staticmethod(lambda: a))):
@@ -275,11 +287,14 @@ def rand128(r):
 
 def directed(kind, r, code: bytes, limit=6000):
     """Search (cheaply, in Python) for an exchange of the given kind.  A kind may combine classes with '+': one class on
-    the salt (salt-zero, salt-leading-zero, x0), one on b (B0) and one on a (A0, S0, K0, M1-0, M2-0, u0, a-small, a-max).
+    the salt (salt-zero, salt-leading-zero, x0; salt-t0 = trailing zero), one on b (B0; Bt0 = B ends in 0x00) and one on a
+    (A0, S0, K0, M1-0, M2-0, u0, a-small, a-max; At0, M1-t0, M2-t0 = trailing zero byte).
     Returns (salt, a, b, hit); hit is False if some requested class was not reached within the limit."""
     parts = set(kind.split("+"))
     salt = bytes(r.getrandbits(8) for _ in range(16))
     hit = True
+    if "salt-t0" in parts:
+        salt = salt[:14] + bytes([salt[14] | 1, 0])
     if "salt-zero" in parts:
         salt = bytes(16)
     elif "salt-leading-zero" in parts:
@@ -302,7 +317,15 @@ def directed(kind, r, code: bytes, limit=6000):
                 found = True
                 break
         hit = hit and found
-    on_a = parts & {"S0", "K0", "M1-0", "M2-0", "u0"}
+    if "Bt0" in parts:
+        found = False
+        for _ in range(limit):
+            b = rand128(r)
+            if f.B_b(b)[-1] == 0:
+                found = True
+                break
+        hit = hit and found
+    on_a = parts & {"S0", "K0", "M1-0", "M2-0", "u0", "M1-t0", "M2-t0"}
     if "A0" in parts:
         found = False
         for _ in range(limit):
@@ -311,15 +334,24 @@ def directed(kind, r, code: bytes, limit=6000):
                 found = True
                 break
         hit = hit and found
+    elif "At0" in parts:
+        found = False
+        for _ in range(limit):
+            a = rand128(r)
+            if pow(R.G, a, R.N) % 256 == 0:
+                found = True
+                break
+        hit = hit and found
     elif on_a:
         which = sorted(on_a)[0]
-        key = {"S0": "S_b", "K0": "K", "M1-0": "M1", "M2-0": "M2"}.get(which)
+        key = {"S0": "S_b", "K0": "K", "M1-0": "M1", "M2-0": "M2", "M1-t0": "M1", "M2-t0": "M2"}.get(which)
+        pos = -1 if which.endswith("-t0") else 0
         B_b = f.B_b(b)
         found = False
         for _ in range(limit):
             a = rand128(r)
             c = f.client(a, B_b)
-            if (which == "u0" and c["u"] >> 504 == 0) or (key and c[key][0] == 0):
+            if (which == "u0" and c["u"] >> 504 == 0) or (key and c[key][pos] == 0):
                 found = True
                 break
         hit = hit and found
@@ -363,6 +395,13 @@ def impl_phase(case):
     B_b = bytes.fromhex(case["B_b"]) if case.get("B_b") is not None else acc.B_b
     conformant = case.get("B_b") is None and len(salt) == 16
     first = impl_run(code, a, salt, B_b, [])          # first pass (no candidate proofs yet)
+    if first["status"] == "ok" and 0 <= a < 1 << 128:
+        # a client may legitimately draw its ephemeral more than once; the values must then be those of the draw whose
+        # public key it sends (unchanged code: the first)
+        for cand in rng_draws(a):
+            if R.PAD(pow(R.G, cand, R.N)) == first["A_b"]:
+                a = cand
+                break
     if first["status"] == "ok":
         verdict = acc.receive(first["A_b"], first["M1"])
         M2 = verdict["M2"] if verdict["M2"] is not None else bytes(64)
@@ -514,14 +553,17 @@ def judge(ctx, P, mres, seq=None):
     """Compare implementation, model and oracle on one exchange.  seq = (sequence name, index, history of earlier steps)."""
     case, impl, verdict, M2 = P["case"], P["impl"], P["verdict"], P["M2"]
     res = dict(case=case, viol=[], impl_status=impl["status"], seq=seq[0] if seq else None)
-    mc = mres[0]
-    if mc[0] == [1]:
+    if mres is None:          # oracle-only exchange (no model evaluation): implementation judged by the reference accessory
+        model = dict(impl)
+        mres = []
+    elif mres[0][0] == [1]:
+        mc = mres[0]
         model = dict(status="ok", A_b=bytes(mc[1]), M1=bytes(mc[2]), K=bytes(mc[3]), accepts=list(mc[5]))
     else:
         model = dict(status="crash", A_b=b"", M1=b"", K=b"", accepts=[])
     res["impl"] = {k: (v.hex() if isinstance(v, bytes) else v) for k, v in impl.items() if k != "accepts"}
     res["model"] = {k: (v.hex() if isinstance(v, bytes) else v) for k, v in model.items() if k != "accepts"}
-    payload = dict(case=case, impl=res["impl"], model=res["model"])
+    payload = dict(case=case, impl=res["impl"], model=res["model"], rng_draws=[str(x) for x in rng_draws(case["a"])][:2])
     if seq:
         payload["sequence"] = dict(name=seq[0], failing_step=seq[1], steps_so_far=seq[2] + [case])
 
@@ -572,7 +614,9 @@ def judge(ctx, P, mres, seq=None):
     res["flags"] = dict(A0=impl["A_b"][:1] == b"\x00", B0=P["B_b"][:1] == b"\x00", K0=impl["K"][:1] == b"\x00",
                         M1_0=impl["M1"][:1] == b"\x00", M2_0=M2[:1] == b"\x00", salt0=P["salt"][:1] == b"\x00",
                         S0=("S" in want and want["S"] >> (8 * 383) == 0), u0=("u" in want and want["u"] >> 504 == 0),
-                        x0=(P["code"] == P["scode"] and P["acc"].x >> 504 == 0))
+                        x0=(P["code"] == P["scode"] and P["acc"].x >> 504 == 0),
+                        A_t0=impl["A_b"][-1:] == b"\x00", B_t0=P["B_b"][-1:] == b"\x00", salt_t0=P["salt"][-1:] == b"\x00",
+                        M1_t0=impl["M1"][-1:] == b"\x00", M2_t0=M2[-1:] == b"\x00")
     return res
 
 
@@ -588,7 +632,14 @@ def gen_exchanges(tier, seed):
     kinds_quick = ["A0", "B0+u0", "S0", "K0", "x0+M2-0", "salt-zero+M1-0"]
     kinds_all = ["A0", "B0", "S0", "K0", "M1-0", "M2-0", "u0", "x0", "salt-zero", "salt-leading-zero", "a-small", "a-max",
                  "plain", "plain", "plain", "plain"]
+    # everything that crosses the wire may also END in 0x00 (a strip()/rstrip() somewhere on the path): A, B, salt, M1, M2
+    kinds_wire = ["At0", "Bt0", "salt-t0+M1-t0", "Bt0+M2-t0"]
+    if tier != "quick":
+        kinds_all = kinds_all + kinds_wire + ["salt-t0+Bt0+At0"]
     kinds = kinds_quick if tier == "quick" else [kinds_all[i % len(kinds_all)] for i in range(96)]
+    n_model = len(kinds)
+    if tier == "quick":
+        kinds = kinds + kinds_wire      # quick: these four are judged by the reference accessory only (no model evaluation)
     codes = ["123-45-678", "111-22-333", "031-45-154", "000-00-000", "999-99-999"]
     todo = []
     for i, kind in enumerate(kinds):
@@ -606,7 +657,8 @@ def gen_exchanges(tier, seed):
     for (_, i, kind, code), (salt, a, b, hit) in zip(todo, found):
         if kind.startswith("A0") and i % 2 == 0 and tier == "quick":
             salt = bytes(3) + salt[3:]     # leading-zero salt together with a leading-zero A
-        cases.append(dict(id=f"{i}", kind=kind, code=code, server_code=code, salt=salt.hex(), a=a, b=b, hit=hit))
+        cases.append(dict(id=f"{i}", kind=kind, code=code, server_code=code, salt=salt.hex(), a=a, b=b, hit=hit,
+                          **({"oracle_only": True} if i >= n_model else {})))
     # wrong setup code
     n_wrong = 1 if tier == "quick" else 6
     for i in range(n_wrong):
@@ -890,6 +942,9 @@ def run(ctx):
     all_P = plain_P + [P for l in seq_P for P in l]
     job_of, exprs_list = {}, []
     for P in all_P:                       # one model evaluation per distinct input (the model has no history)
+        if P["case"].get("oracle_only"):
+            P["job"] = None
+            continue
         e = model_exprs(P)
         key = "\n".join(e)
         if key not in job_of:
@@ -932,7 +987,7 @@ def run(ctx):
     sha_model = [d for part in out[o:o + len(sha_parts)] for d in part]
     tba_model, pl_model, mc = out[-3], out[-2], out[-1]
     t_model = time.time()
-    results = [judge(ctx, P, ex_out[P["job"]]) for P in plain_P]
+    results = [judge(ctx, P, ex_out[P["job"]] if P["job"] is not None else None) for P in plain_P]
     seq_results = [judge(ctx, P, ex_out[P["job"]], seq=(sq["name"], k, sq["steps"][:k]))
                    for sq, l in zip(seqs, seq_P) for k, P in enumerate(l)]
 
@@ -980,7 +1035,7 @@ def run(ctx):
     cov.extra["model_evaluations_shared"] = len(all_P) - len(exprs_list)
 
     # ---- exchanges (first, so that their samples are kept)
-    flags = dict(A0=0, B0=0, S0=0, K0=0, M1_0=0, M2_0=0, u0=0, x0=0, salt0=0)
+    flags = dict(A0=0, B0=0, S0=0, K0=0, M1_0=0, M2_0=0, u0=0, x0=0, salt0=0, A_t0=0, B_t0=0, salt_t0=0, M1_t0=0, M2_t0=0)
     flips_checked = 0
     for res in results:
         viols += res["viol"]
@@ -989,7 +1044,8 @@ def run(ctx):
             flags[k] += 1 if v else 0
         flips_checked += 512 if res["impl_status"] == "ok" else 0
         canon = json.dumps([c["code"], c["server_code"], c["salt"], c["a"], c["b"], c.get("B_b")])
-        cov.case("ex" + canon, True, stream="exchange", exchange_kind=c["kind"], exchange_impl=res["impl_status"],
+        cov.case("ex" + canon, True, stream="exchange" if not c.get("oracle_only") else "exchange-oracle-only",
+                 exchange_kind=c["kind"], exchange_impl=res["impl_status"],
                  directed_hit=c["hit"],
                  sample=dict(stream="exchange", kind=c["kind"], code=c["code"], salt=c["salt"], a=str(c["a"]), b=str(c["b"]),
                              A_b=res["impl"]["A_b"][:24] + "...", K=res["impl"]["K"][:24] + "...", pair_setup=res.get("pair_setup"),
